@@ -979,7 +979,7 @@ def build_advi(arg):
             parameters.extend(
                 (
                     f'{branch_model_id}.rates.prior.mean',
-                    f'{branch_model_id}.rates.prior.scale',
+                    f'{branch_model_id}.rates.prior.stdev',
                 )
             )
         else:
